@@ -594,12 +594,15 @@ def merge_tensor(c, a, b):
 class SFrame:
     """Ordered table: named rank-1 columns of equal length."""
 
-    def __init__(self, columns, nrows):
+    def __init__(self, columns, nrows, index_token=None):
         self.columns = dict(columns)
         self.nrows = nrows
+        # identity of the row index (pandas aligns Series / frames on index LABELS, not on positions): frames that share the token have the same
+        # index; 'range' = RangeIndex(0..n-1) as produced by reset_index(drop=True) / ignore_index=True; a fresh object = some index of its own
+        self.index_token = index_token if index_token is not None else object()
 
     def copy(self):
-        return SFrame(self.columns, self.nrows)
+        return SFrame(self.columns, self.nrows, self.index_token)
 
     def __repr__(self):
         return f'SFrame[{self.nrows}]({list(self.columns)})'
